@@ -193,16 +193,9 @@ impl LuaEngine {
         let mut args = Vec::new();
         for value in cmd {
             match value {
-                LuaValue::String(s) => {
-                    match s.to_str() {
-                        Ok(string_val) => args.push(string_val.to_string()),
-                        Err(_) => {
-                            return Self::handle_command_error_with_context(lua_ctx, "Invalid UTF-8 in command argument".to_string(), is_pcall);
-                        }
-                    }
-                }
-                LuaValue::Integer(i) => args.push(i.to_string()),
-                LuaValue::Number(n) => args.push(n.to_string()),
+                LuaValue::String(s) => args.push(s.as_bytes().to_vec()),
+                LuaValue::Integer(i) => args.push(i.to_string().into_bytes()),
+                LuaValue::Number(n) => args.push(n.to_string().into_bytes()),
                 _ => {
                     return Self::handle_command_error_with_context(lua_ctx, "Invalid argument type".to_string(), is_pcall);
                 }
@@ -213,7 +206,7 @@ impl LuaEngine {
             return Self::handle_command_error_with_context(lua_ctx, "No command specified".to_string(), is_pcall);
         }
         
-        let cmd_name = args[0].to_uppercase();
+        let cmd_name = String::from_utf8_lossy(&args[0]).to_uppercase();
         
         // Block commands that shouldn't be available in Lua scripts
         match cmd_name.as_str() {
@@ -281,15 +274,13 @@ impl LuaEngine {
     fn resp_frame_to_lua_value(lua_ctx: &Lua, frame: RespFrame, is_pcall: bool) -> LuaResult<LuaValue> {
         match frame {
             RespFrame::SimpleString(bytes) => {
-                let string_val = String::from_utf8_lossy(&bytes).into_owned();
-                match lua_ctx.create_string(&string_val) {
+                match lua_ctx.create_string(bytes.as_slice()) {
                     Ok(lua_string) => Ok(LuaValue::String(lua_string)),
                     Err(e) => Self::handle_command_error_with_context(lua_ctx, e.to_string(), is_pcall),
                 }
             }
             RespFrame::BulkString(Some(bytes)) => {
-                let string_val = String::from_utf8_lossy(&bytes).into_owned();
-                match lua_ctx.create_string(&string_val) {
+                match lua_ctx.create_string(bytes.as_slice()) {
                     Ok(lua_string) => Ok(LuaValue::String(lua_string)),
                     Err(e) => Self::handle_command_error_with_context(lua_ctx, e.to_string(), is_pcall),
                 }
@@ -342,14 +333,14 @@ impl LuaEngine {
         
         let keys_table = lua.create_table().map_err(|e| FerrousError::LuaError(e.to_string()))?;
         for (i, key) in keys.iter().enumerate() {
-            let key_str = String::from_utf8_lossy(key).into_owned();
+            let key_str = lua.create_string(key).map_err(|e| FerrousError::LuaError(e.to_string()))?;
             keys_table.set(i + 1, key_str).map_err(|e| FerrousError::LuaError(e.to_string()))?;
         }
         globals.set("KEYS", keys_table).map_err(|e| FerrousError::LuaError(e.to_string()))?;
         
         let argv_table = lua.create_table().map_err(|e| FerrousError::LuaError(e.to_string()))?;
         for (i, arg) in args.iter().enumerate() {
-            let arg_str = String::from_utf8_lossy(arg).into_owned();
+            let arg_str = lua.create_string(arg).map_err(|e| FerrousError::LuaError(e.to_string()))?;
             argv_table.set(i + 1, arg_str).map_err(|e| FerrousError::LuaError(e.to_string()))?;
         }
         globals.set("ARGV", argv_table).map_err(|e| FerrousError::LuaError(e.to_string()))?;
